@@ -31,10 +31,18 @@ MB = "storage_memory:MemoryStorageBackend."
 MEMORY_BACKEND_FUNCS = [MB + n for n in ("__init__", "_get_memento_key", "get_mementos", "is_memoized", "is_all_memoized", "read_result", "list_functions", "memoize",
                                          "forget_call", "forget_everything", "write_metadata", "read_metadata")]
 
+FDS_ = "storage_filesystem:_FilesystemDataSource."
+FDS_FUNCS = [FDS_ + n for n in ("_write_non_versioned_link", "output", "_read_non_versioned_link", "exists_nonversioned", "get_versioned_key",
+                                "exists_versioned", "input_nonversioned", "input_versioned", "_delete_non_versioned_link", "delete_nonversioned_key", "_get_path_versioned@metadata-key")]
+# the metadata area's path scheme and the forget operations on top of the abstract data source
+META_PATH_FUNCS = ["storage_base:DataSourceMetadataSource." + n for n in ("_get_function_path", "_get_path", "_get_metadata_path", "_get_metadata_key",
+                                                                          "forget_call", "forget_function", "forget_everything", "put_memento", "write_metadata")]
 prop("C05",
      modules=["storage", "codec"],
-     functions=MEMORY_CACHE_FUNCS + STORAGE_BASE_FUNCS + CODEC_FUNCS + MEMORY_BACKEND_FUNCS,
-     function_modules={f: ["membackend"] for f in MEMORY_BACKEND_FUNCS},
+     # ... and the file-system data source (versioned objects, link files): its contracts over the ghost file system (written for C08) are what makes the
+     # on-disk store the dictionary the abstract DataSource view assumes -- a key reads back the latest version written under it
+     functions=MEMORY_CACHE_FUNCS + STORAGE_BASE_FUNCS + CODEC_FUNCS + MEMORY_BACKEND_FUNCS + FDS_FUNCS + META_PATH_FUNCS,
+     function_modules=dict({f: ["membackend"] for f in MEMORY_BACKEND_FUNCS}, **{f: ["crash"] for f in FDS_FUNCS}, **{f: ["metapaths"] for f in META_PATH_FUNCS}),
      design_ref="DESIGN.md section 6, C05",
      trusted=["history induction (DESIGN 3.3) over the per-operation refinement contracts",
               "interface contracts of MetadataSource / DataSource / Codec are assumed at this level (abstract methods)"],
@@ -45,11 +53,18 @@ prop("C05",
                   "read_result is called with the memento currently stored for that call"],
      )
 
+C07_STORE_FUNCS = [SBB + n for n in ("memoize", "read_result", "forget_call", "forget_everything", "forget_function")]
 prop("C07",
      modules=["codec"],
-     functions=CODEC_FUNCS,
+     # "a memento keeps reading exactly the bytes that were stored ... whatever is memoized ... or forgotten afterwards": the storage operations keep every
+     # readable version readable with the same content (memoize: the [C07] clause; forget_*: the data source is not touched; read_result: through the
+     # memento's own content key)
+     functions=CODEC_FUNCS + C07_STORE_FUNCS,
+     function_modules={f: ["storage"] for f in C07_STORE_FUNCS},
+     assume_props=["C05"],
      design_ref="DESIGN.md section 6, C07",
-     trusted=["SHA-256 treated as injective", "DataSource interface contract (versions immutable, output creates a fresh version) is assumed; _FilesystemDataSource is not proved against it"],
+     trusted=["SHA-256 treated as injective", "DataSource interface contract (versions immutable, output creates a fresh version) is assumed; _FilesystemDataSource is not proved against it",
+              "the StorageBackendBase operations are verified in C07's view with C05's coherence clauses assumed (they are proved by the C05 check)"],
      assumptions=["an override key does not start with 'c/' (otherwise a user-chosen key aliases a content address)"],
      )
 
@@ -77,23 +92,31 @@ RUNNER_ASSUME = ["user function bodies are deterministic functions of the call k
                  "the thread-local call stack is a per-thread singleton; no other thread interleaves (C09 is not applicable)"]
 
 EXC = "exception:MementoException."
-prop("C02", modules=["runner"], functions=[MRL, "runner:process_existing_memento", EXC + "__init__", EXC + "from_exception", EXC + "to_exception"], split={MRL: 12},
-     function_modules={EXC + "__init__": ["excname"], EXC + "from_exception": ["excname"], EXC + "to_exception": ["excname"]},
+prop("C02", modules=["runner"], functions=[MRL, "runner:process_existing_memento", EXC + "__init__", EXC + "from_exception", EXC + "to_exception",
+                                            # the entry point: one reference dispatched, the single slot returned or -- an exception object -- raised
+                                            "base:MementoFunctionBase.call",
+                                            # the classification of a result ("the recorded result type always matches the value")
+                                            "metadata:ResultType.from_object"], split={MRL: 12},
+     function_modules={EXC + "__init__": ["excname"], EXC + "from_exception": ["excname"], EXC + "to_exception": ["excname"], "metadata:ResultType.from_object": ["resulttype"]},
      design_ref="DESIGN.md section 6, C02",
      trusted=["interface contract of the abstract StorageBackend (dictionary view) -- refined by StorageBackendBase under C05",
-              "MementoException.from_exception / to_exception round trip and ResultType.from_object are assumed contracts here"],
+              "inside memento_run_local, MementoException.from_exception / to_exception and ResultType.from_object are used through assumed summaries; each is proved against its own contract in this check",
+              "ResultType.from_object: bool < int and datetime < date are the only subclass relations among the classes of the table (values of user classes inheriting from two of them are outside the contract)"],
      assumptions=RUNNER_ASSUME)
 prop("C10", modules=["runner"], functions=["runner_local:propagate_dependencies", MRL, BR, "resource_function:ResourceFunction.__call__"], split={MRL: 12, BR: 14},
      design_ref="DESIGN.md section 6, C10",
      trusted=["interface contract of the abstract StorageBackend", "induction over the call tree (DESIGN 6, C10 lemma)"],
      assumptions=RUNNER_ASSUME)
-prop("C15", modules=["runner"], functions=[BR, "base:MementoFunctionBase.call_batch"], split={BR: 14},
+prop("C15", modules=["runner"], functions=[BR, "base:MementoFunctionBase.call_batch", "base:MementoFunctionBase.call"], split={BR: 14},
      design_ref="DESIGN.md section 6, C15",
      trusted=["memento_run_local's contract (proved under C02)", "interface contract of the abstract StorageBackend",
               "call_batch: memento_run_batch by its contract (proved under C16); RunnerBackend.batch_run of an arbitrary runner returns one slot per reference (its documented interface; proved for the local runner); "
               "Environment.get().get_cluster(name) and self.fn_reference() are functions of their receiver within the call; map_over_range is not under contract"],
      assumptions=RUNNER_ASSUME)
-prop("C16", modules=["runner"], functions=["runner_local:memento_run_batch", "base:MementoFunctionBase.with_context_args", "base:MementoFunctionBase.with_prevent_further_calls"],
+prop("C16", modules=["runner"], functions=["runner_local:memento_run_batch", "base:MementoFunctionBase.with_context_args", "base:MementoFunctionBase.with_prevent_further_calls",
+                                            # "context args enter the hash as _memento_context_args" (contract of C04)
+                                            "reference:FunctionReferenceWithArguments._compute_effective_kwargs_with_context_args"],
+     function_modules={"reference:FunctionReferenceWithArguments._compute_effective_kwargs_with_context_args": ["args"]},
      design_ref="DESIGN.md section 6, C16",
      trusted=["RunnerBackend.batch_run of an arbitrary runner is opaque: the proof is about what is dispatched to it",
               "FunctionReferenceWithArguments.__init__ keeps its four arguments (C04 examines it)",
@@ -106,13 +129,16 @@ prop("C18", modules=["config"],
                 "storage_memory:MemoryStorageBackend.__init__", "storage_memory:MemoryStorageBackend.to_dict", "storage_null:NullStorageBackend.to_dict",
                 "storage:StorageBackend.create", "runner:RunnerBackend.create", "runner_local:LocalRunnerBackend.to_dict", "runner_null:NullRunnerBackend.to_dict",
                 "configuration:FunctionCluster.__init__", "configuration:FunctionCluster.to_dict", "configuration:ConfigurationRepository.to_dict",
+                "configuration:ConfigurationRepository.__init__@no-configured-clusters", "configuration:Environment.__init__",
                 "configuration:Environment.to_dict", "configuration:Environment.get_cluster", "configuration:Environment.append_repo", "configuration:Environment.prepend_repo"],
-     split={FS + "__init__": 10, "configuration:FunctionCluster.__init__": 12},
+     split={FS + "__init__": 10, "configuration:FunctionCluster.__init__": 12, "configuration:ConfigurationRepository.__init__@no-configured-clusters": 8},
      design_ref="DESIGN.md section 6, C18",
      trusted=["pathlib operations are uninterpreted functions of the path strings", "YAML/JSON/Jinja loaders produce the dict they describe (not examined)"],
      assumptions=["configuration values have the documented types (path strings, non-negative number for memory_cache_mb)"])
 
 MFN = "memento:MementoFunction."
+TRAVERSAL_FUNCS = ["code_hash:HashRule._visit_dependency", "code_hash:MementoFunctionHashRule.collect_transitive_dependencies", "code_hash:NonMementoFunctionHashRule.collect_transitive_dependencies"]
+TRY_RESOLVE_FUNCS = ["code_hash:%s.try_resolve" % k for k in ("MementoFunctionHashRule", "NonMementoFunctionHashRule", "GlobalVariableHashRule")]
 prop("C13", modules=["version"],
      split={MFN + "__init__": 14},
      functions=[MFN + "__init__", MFN + "_update_dependencies", MFN + "_update_fn_reference", MFN + "version", MFN + "fn_reference", MFN + "hash_rules", MFN + "increment_global_fn_generation",
@@ -132,11 +158,10 @@ prop("C14", modules=["deps"],
                 # the scope of the collection ("plain helper functions of the same package"): the package_scope handed to collect_transitive_dependencies
                 MFN + "_recompute_version",
                 # the traversal itself: which names are visited from which function, what is recorded for a name that does or does not resolve
-                "code_hash:HashRule._visit_dependency", "code_hash:MementoFunctionHashRule.collect_transitive_dependencies",
-                "code_hash:NonMementoFunctionHashRule.collect_transitive_dependencies"],
-     function_modules={MFN + "_recompute_version": ["codehash"], "code_hash:HashRule._visit_dependency": ["traversal"],
-                       "code_hash:MementoFunctionHashRule.collect_transitive_dependencies": ["traversal"],
-                       "code_hash:NonMementoFunctionHashRule.collect_transitive_dependencies": ["traversal"]},
+                ] + TRAVERSAL_FUNCS
+     # the strategies that decide what a reference denotes (memento function behind any wrapper chain, plain function, tracked variable)
+     + TRY_RESOLVE_FUNCS,
+     function_modules=dict({MFN + "_recompute_version": ["codehash"]}, **{f: ["traversal"] for f in TRAVERSAL_FUNCS + TRY_RESOLVE_FUNCS}),
      split={"code_hash:MementoFunctionHashRule.collect_transitive_dependencies": 5},
      design_ref="DESIGN.md section 6, C14",
      trusted=["_extract_fn_ref_args (recursive walk over argument structures) is summarised by in_fnref_names (assumed)",
@@ -145,7 +170,10 @@ prop("C14", modules=["deps"],
 
 prop("C12", modules=["names"],
      functions=["reference:FunctionReference.parse_qualified_name", "reference:FunctionReference.parse_qualified_name@ambiguous-cluster",
-                "reference:FunctionReference.__init__", "reference:FunctionReference.from_qualified_name", "external:UnboundExternalMementoFunction.__init__"],
+                "reference:FunctionReference.__init__", "reference:FunctionReference.from_qualified_name", "external:UnboundExternalMementoFunction.__init__",
+                # "metadata source ignores mementos whose functions cannot be found": one slot per request, nothing escapes (contract of C08)
+                "storage_base:DataSourceMetadataSource.get_mementos"],
+     function_modules={"storage_base:DataSourceMetadataSource.get_mementos": ["crash"]},
      split={"reference:FunctionReference.__init__": 12},
      design_ref="DESIGN.md section 6, C12",
      trusted=["backtracking semantics of re.match on the supported regex subset: the returned match is the most preferred feasible choice vector (pyvc/regex.py)"],
@@ -190,10 +218,13 @@ prop("C01", modules=["codehash"],
                 MFN + "_update_dependencies", "code_hash:UndefinedSymbolHashRule.did_change", "code_hash:MementoFunctionHashRule.did_change",
                 "code_hash:GlobalVariableHashRule.did_change", "code_hash:NonMementoFunctionHashRule.did_change",
                 # the version is part of the storage key: the qualified name carries '#version' (contracts of C12)
-                "reference:FunctionReference.__init__"],
-     function_modules=dict({MFN + "_update_dependencies": ["version"], "reference:FunctionReference.__init__": ["names"]},
+                "reference:FunctionReference.__init__",
+                # the rules are collected transitively (contracts of C14), ordered and digested (C03), and calls outside the closure are refused (C14)
+                MFN + "_recompute_version", MFN + "_validate_dependency"] + TRAVERSAL_FUNCS + TRY_RESOLVE_FUNCS,
+     function_modules=dict({MFN + "_update_dependencies": ["version"], "reference:FunctionReference.__init__": ["names"], MFN + "_validate_dependency": ["deps"],
+                            **{f: ["traversal"] for f in TRAVERSAL_FUNCS + TRY_RESOLVE_FUNCS}},
                            **{"code_hash:%s.did_change" % k: ["version"] for k in ("UndefinedSymbolHashRule", "MementoFunctionHashRule", "GlobalVariableHashRule", "NonMementoFunctionHashRule")}),
-     split={"reference:FunctionReference.__init__": 12},
+     split={"reference:FunctionReference.__init__": 12, "code_hash:MementoFunctionHashRule.collect_transitive_dependencies": 5},
      design_ref="DESIGN.md section 6, C01",
      trusted=["json.dumps / base64 / utf-8 / SHA-256 injective (assumed)"],
      assumptions=[])
@@ -203,8 +234,9 @@ prop("C03", modules=["codehash"],
      + ["code_hash:%s.__init__" % k for k in ("NonMementoFunctionHashRule", "MementoFunctionHashRule", "GlobalVariableHashRule", "UndefinedSymbolHashRule")]
      + ["code_hash:HashRule.__eq__", "code_hash:HashRule.__lt__", "code_hash:HashRule.__hash__"]
      # "regardless of definition or import order": a name that does not resolve yet leaves a rule that watches the place where it will appear
-     + ["code_hash:HashRule._visit_dependency"],
-     function_modules={"code_hash:HashRule._visit_dependency": ["traversal"]},
+     + TRAVERSAL_FUNCS,
+     function_modules={f: ["traversal"] for f in TRAVERSAL_FUNCS},
+     split={"code_hash:MementoFunctionHashRule.collect_transitive_dependencies": 5},
      extra_checks=["contracts.extra:env_salt"],
      design_ref="DESIGN.md section 6, C03",
      trusted=["value table of seed-independent repr(); 'sorting removes iteration order' (bag lemma); seed independence is checked on value terms by substituting a second seed"],
@@ -214,9 +246,12 @@ FDS = "storage_filesystem:_FilesystemDataSource."
 prop("C08", modules=["crash"],
      functions=[FDS + n for n in ("_write_non_versioned_link", "output", "_read_non_versioned_link", "exists_nonversioned", "get_versioned_key",
                                   "exists_versioned", "input_nonversioned", "input_versioned", "_delete_non_versioned_link", "delete_nonversioned_key", "_get_path_versioned@metadata-key")]
-     + ["storage_base:DataSourceMetadataSource.get_mementos", "storage_base:Codec.BlobStrategy.store", SBB + "memoize"],
-     assume_props=["C05", "C06", "C07", "C19"], custom_replay="crash_replay", extra_checks=["contracts.extra:crash_faults"],
-     function_modules={"storage_base:Codec.BlobStrategy.store": ["codec"], SBB + "memoize": ["storage"]},
+     + ["storage_base:DataSourceMetadataSource.get_mementos", "storage_base:Codec.BlobStrategy.store", SBB + "memoize",
+        # "IOError during memoize is logged and swallowed", "IOError during read falls back to recomputation": the runner's side (contracts of C02)
+        MRL, "runner:process_existing_memento"],
+     assume_props=["C05", "C06", "C07", "C19", "C02", "C10", "C15"], custom_replay="crash_replay", extra_checks=["contracts.extra:crash_faults"],
+     function_modules={"storage_base:Codec.BlobStrategy.store": ["codec"], SBB + "memoize": ["storage"], MRL: ["runner"], "runner:process_existing_memento": ["runner"]},
+     split={MRL: 12},
      design_ref="DESIGN.md section 6, C08",
      trusted=["OS model: the assumed contracts of open / write / close / os.replace / os.makedirs / uuid4 (contracts/crash.py header)",
               "path algebra: link, version-file and temporary paths are disjoint families with the inverses pathlib gives (memento's key space)",
@@ -224,7 +259,7 @@ prop("C08", modules=["crash"],
               "(latest[k] = version named by the link of k, blobs = complete version files); the contracts proved for _FilesystemDataSource are the "
               "image of the interface contracts assumed by BlobStrategy.store and StorageBackendBase.memoize, whose own intermediate states are checked here",
               "clauses tagged C05 / C06 / C07 / C19 of the storage contracts are assumed here and proved by those checks over the same functions",
-              "memento_run_local swallows an OSError of memoize and recomputes on an OSError of read_result: proved under C02 / C10"],
+              "memento_run_local / process_existing_memento are verified here in C08's view (exception freedom: an OSError of memoize is swallowed, an OSError of read_result leads to recomputation) with the clauses tagged C02 / C10 / C15 assumed"],
      assumptions=["one process writes (C09 is not applicable); a crash state is the state after some primitive's normal or exceptional outcome",
                   "after a failed write the memory cache may hold the entry the store lacks (it carries the value); cache/store coherence after an OSError is not claimed"])
 
